@@ -60,13 +60,8 @@ def recipe(c: Check):
         except OSError:
             pass
         if fb.get("reproduced"):
-            if any(k["key"] == FINDING_KEY for k in c.known_findings() if k["property"] == PID):
-                c.failures.append(dict(key=FINDING_KEY, driver="udp", what=fb.get("what"), case=fb.get("case")))
-            else:
-                # confirmed by replay, reported to the lead; until it is listed in KNOWN_FINDINGS.txt it is shown, not failed
-                c.say("FINDING-REPRODUCED (not yet listed in KNOWN_FINDINGS.txt): property=C03 key=%s %s" % (FINDING_KEY, fb.get("what")))
-                c.notes.append("finding %s reproduced on this run (replay: driver udp part race); not listed in KNOWN_FINDINGS.txt" % FINDING_KEY)
-                c.cov["finding_idle_boundary"] = fb
+            # recorded in KNOWN_FINDINGS.txt under this key: vlib prints the KNOWN-FINDING line
+            c.failures.append(dict(key=FINDING_KEY, driver="udp", what=fb.get("what"), case=fb.get("case")))
         elif gate and fb.get("gate_seen"):
             c.notes.append("finding %s did not reproduce on this run (the code at the gate no longer loses the datagram)" % FINDING_KEY)
         cnt = c.cov.get("coq_counters", {}).get("udp", {})
@@ -91,6 +86,9 @@ def recipe(c: Check):
              "proxy/visitor files has N = 1024 = the model's uqcap. Part idle: the Forwarder's 30 s read deadline elapses for real, late datagrams to the old ports, new sockets "
              "afterwards, compared with the model run containing ESockIdle. Part (iii) sys: in-process frps + real frpc, udp and sudp+visitor, "
              "encryption/compression/tcpMux variants, work connection replaced mid-stream (server-side accessor / relay kill), evaluated by the "
+             "in every variant once under traffic and once silently (udp: datagrams sent a second after the server installed the new "
+             "connection must all arrive; sudp: the visitor connection is cut after traffic and nothing sent earlier may show up again); the "
+             "very first datagram of every tunnel is a recorded one. Evaluated by the "
              "monitors C03_holds in Coq and in Go (payload equality, no duplicate, one socket one user, reply to the originating user only, "
              "arrival at light load outside the replacement window, per-user order without replacement). "
              "Part race: the witness of C03_drop_only_when_full_or_replacing_refuted replayed on the real udp.Forwarder (loop held at the gate "
